@@ -320,6 +320,7 @@ int main(int argc, char ** argv) {
     } else if (mode == "random") {
         unsigned long seed = strtoul(argv[3], nullptr, 10);
         long runs = atol(argv[4]);
+        FILE * tf = argc > 5 ? fopen(argv[5], "w") : nullptr;
         std::mt19937_64 rng(seed);
         for (auto & sc : scs) {
             long ok = 0, deadlock = 0, livelock = 0, steps = 0, maxHeld = 0, maxQ = 0, maxConts = 0;
@@ -328,6 +329,7 @@ int main(int argc, char ** argv) {
             for (long r = 0; r < runs; r++) {
                 Session S;
                 start_session(S, sc);
+                if (tf) fprintf(tf, "{\"e\":\"Reset\",\"scen\":\"%s\",\"pt\":%s}\n", sc.name.c_str(), project(S).c_str());
                 long budget = getenv("VERIF_BUDGET") ? atol(getenv("VERIF_BUDGET")) : 4000000;
                 std::string verdict;
                 for (;;) {
@@ -340,6 +342,7 @@ int main(int argc, char ** argv) {
                     for (long b = 0; b < burst && vsched::runnable(t); b++) {
                         vsched::step(t);
                         steps++;
+                        if (tf) fprintf(tf, "{\"e\":\"%s\",\"pt\":%s}\n", t == 0 ? "A" : t == 1 ? "U" : "C", project(S).c_str());
                         long held = 0;
                         for (auto & c : S.file->m_uncompressedFile.m_data) held += (long) c->uncompressedFileSize;
                         if (held > maxHeld) maxHeld = held;
@@ -371,6 +374,7 @@ int main(int argc, char ** argv) {
             if (!firstBad.empty()) o.raw("first", firstBad);
             printf("RESULT %s\n", o.str().c_str());
         }
+        if (tf) fclose(tf);
         vsched::reset();
         rc = 0;
     }
